@@ -74,8 +74,10 @@ def snap(x, depth=0):
 
 ONE_SHOT_HINTS = [
     # (hint source with {} for the item hint, families of subjects that satisfy its origin)
-    ('Iterable[{}]', ('generator', 'PyIterator', 'PyIterable', 'PyGenerator', 'list_iterator', 'map', 'PySizedIterator')),
-    ('Iterator[{}]', ('generator', 'PyIterator', 'PyGenerator', 'list_iterator', 'map', 'PySizedIterator')),
+    ('Iterable[{}]', ('generator', 'PyIterator', 'PyIterable', 'PyGenerator', 'list_iterator', 'map', 'PySizedIterator',
+                      'PyCollectionIterator')),
+    ('Iterator[{}]', ('generator', 'PyIterator', 'PyGenerator', 'list_iterator', 'map', 'PySizedIterator', 'PyCollectionIterator',
+                      'PyCollectionIterator')),
     ('Generator[{}, None, None]', ('generator', 'PyGenerator')),
     ('Container[{}]', ('PyContainer',)),
     ('Reversible[{}]', ('PyReversible',)),
@@ -98,7 +100,7 @@ def make_one_shot(fam, items):
 def drain(o, fam):
     if fam in ('generator', 'list_iterator', 'map'):
         return list(o)
-    if fam in ('PyIterator', 'PyGenerator', 'PySizedIterator'):
+    if fam in ('PyIterator', 'PyGenerator', 'PySizedIterator', 'PyCollectionIterator'):
         return o.drain()
     return list(o._items)
 
@@ -300,7 +302,12 @@ def main():
             same = len(left) == len(state['planted']) and all(a is b for a, b in zip(left, state['planted']))
             W.evaluate(('one', src, fam, ctx, ep))
             if bad or not same:
-                W.violation('one-shot-consumed' if not same else 'non-readonly-call:' + bad[0][1],
+                key = 'one-shot-consumed' if not same else 'non-readonly-call:' + bad[0][1]
+                if fam == 'PyCollectionIterator' and not same:
+                    # an iterator that is structurally a Collection too: keyed by the hint family, the guard of
+                    # each family being a separate piece of generated code
+                    key += ':iterator-that-is-a-collection:' + fmt.split('[')[0]
+                W.violation(key,
                             f'{ep} ({out.verdict}) consumed/advanced a one-shot {fam}: {len(state["planted"]) - len(left)} '
                             f'of {len(state["planted"])} items gone; events={bad[:3]} hint={src}', 'oneshot', idx,
                             dict(hint=src, family=fam, context=ctx, planted=short(items, 200), left=short(left, 200),
